@@ -205,35 +205,97 @@ def sig_src(case):
 
 
 def judge(ctx, case):
+    """the case's selection on its source, then every further selection of `case["chain"]` on the sub-grid the previous
+    one returned (each sub-grid is judged against ITS OWN source; data through the composed recorded indices).  The
+    sub-grid a chained selection starts from is rebuilt WITHOUT being observed (`replay_prefix`): only what the case's
+    histories materialise is there, not what this harness reads when it judges the previous step."""
+    ok = judge_step(ctx, case, case, None, 0)
+    for depth, step in enumerate(case.get("chain") or [], 1):
+        if ok is None:
+            break
+        ctx.hit("chain-depth=%d" % depth)
+        try:
+            prev = replay_prefix(case, depth)
+        except Exception as e:
+            ctx.fail(f"C09/chain/depth={depth}/prefix-raises={type(e).__name__}",
+                     f"re-running the first {depth} selection(s) of the chain raises {type(e).__name__}: {str(e)[:160]}", case)
+            break
+        ok = judge_step(ctx, case, step, prev, depth)
+
+
+def replay_prefix(case, depth):
+    """root (+ its history) → selection 0 → [history on the sub-grid → next selection] … : the un-observed sub-grid (or
+    UxDataArray) after `depth` selections, with the composed recorded indices"""
     import uxarray as ux
 
-    d = ctx.driver
-    sel = case["sel"]
-    kind = sel["kind"] + (":" + sel["element"] if "element" in sel else "")
-    src_kind = sig_src(case)
-    key = (case.get("file"), case.get("table"), bool(case.get("supplied")), tuple(case.get("history", [])),
-           repr(sorted(sel.items())), case.get("via"), repr(case.get("data")))
     g = build_source(case, ux)
     if case.get("node_node"):
         set_node_node(g)
-        ctx.hit("source-has-node_node_connectivity")
+    is_da = case.get("via") == "uxda"
+    steps = [case] + list(case.get("chain") or [])
+    obj, root, comp, sels = g, None, None, []
+    for i in range(depth):
+        grid = obj.uxgrid if (is_da and i > 0) else (g if i == 0 else obj)
+        for v in steps[i].get("history", []):
+            try:
+                getattr(grid, v)
+            except Exception:
+                pass
+        if is_da and i == 0:
+            sizes = dict(node=int(g.n_node), face=int(g.n_face), edge=int(g.n_edge) if case["data"]["centre"] == "edge" else None)
+            root = make_data(case, sizes)
+            dims = [f"d{k}" for k in range(root.ndim - 1)] + ["n_" + case["data"]["centre"]]
+            obj = ux.UxDataArray(root, dims=dims, uxgrid=g, name="v")
+        obj = apply_sel(obj, steps[i]["sel"], is_da)
+        sels.append(steps[i]["sel"])
+        if is_da:
+            rec = [int(x) for x in obj.uxgrid._ds["subgrid_%s_indices" % case["data"]["centre"]].values]
+            comp = rec if comp is None else [comp[j] for j in rec]
+    return dict(sub=obj.uxgrid if is_da else obj, res=obj, sels=sels, comp=comp, root=root)
+
+
+def judge_step(ctx, case, step, prev, depth):
+    import uxarray as ux
+
+    d = ctx.driver
+    sel = step["sel"]
+    kind = sel["kind"] + (":" + sel["element"] if "element" in sel else "")
+    src_kind = sig_src(case) if depth == 0 else "src=subgrid(depth %d)" % depth
+    key = (case.get("file"), case.get("table"), bool(case.get("supplied")), tuple(case.get("history", [])),
+           repr(sorted(case["sel"].items())), case.get("via"), repr(case.get("data")), depth,
+           repr([(c.get("history"), sorted(c["sel"].items())) for c in (case.get("chain") or [])[:depth]]))
+    is_da = case.get("via") == "uxda"
+    node_node = bool(case.get("node_node")) and depth == 0
+    if prev is None:
+        g = build_source(case, ux)
+        if node_node:
+            set_node_node(g)
+            ctx.hit("source-has-node_node_connectivity")
+    else:
+        g = prev["sub"]
     hist_done = []
-    for v in case.get("history", []):
+    for v in step.get("history", []):
         try:
             getattr(g, v)
             hist_done.append(v)
         except Exception as e:  # a derived variable of the SOURCE that cannot be built is another property's business
+            if depth:
+                ctx.fail(f"C09/chain/depth={depth}/derived={v}/raises={type(e).__name__}",
+                         f"{v} of the intermediate sub-grid raises {type(e).__name__}: {str(e)[:160]}", case)
+                return None
             ctx.hit(f"source-raises:{v}:{type(e).__name__}")
-    sizes = dict(node=int(g.n_node), face=int(g.n_face), edge=None)
-    is_da = case.get("via") == "uxda"
     obj = g
     data = None
-    if is_da:
+    if is_da and prev is None:
+        sizes = dict(node=int(g.n_node), face=int(g.n_face), edge=None)
         if case["data"]["centre"] == "edge":
             sizes["edge"] = int(g.n_edge)
         data = make_data(case, sizes)
         dims = [f"d{i}" for i in range(data.ndim - 1)] + ["n_" + case["data"]["centre"]]
         obj = ux.UxDataArray(data, dims=dims, uxgrid=g, name="v")
+    elif is_da:
+        obj = prev["res"]
+        data = np.asarray(obj.values)
     ctx.hit("sel=" + kind)
     ctx.hit("via=" + ("uxda:" + case["data"]["centre"] + ":rank%d" % data.ndim if is_da else "grid"))
     ctx.hit(src_kind)
@@ -266,13 +328,14 @@ def judge(ctx, case):
                 want_ind = common.Tok(d.ask("C09.knn", enc_floats(dist), k)).ints()
         if dropped:
             ctx.hit("margin-dropped")
-            return
+            return None
     ctx.case(key, nontrivial=True, sample=dict(mesh=case.get("mesh", case.get("file")), supplied_edge_tables=bool(case.get("supplied")),
-                                               history=case.get("history"), selection=sel, via=case.get("via"), data=case.get("data"),
-                                               requests_on_subset=case.get("order")) if len(case.get("table", [])) <= 8 else None)
+                                               history=case.get("history"), selection=case["sel"], via=case.get("via"), data=case.get("data"),
+                                               requests_on_subset=case.get("order"), chain=case.get("chain"))
+             if len(case.get("table", [])) <= 8 else None)
 
     def fail(sig, what, impl=None, model=None, clauses=()):
-        ctx.fail(f"C09/{sig}", what, case, impl, model, list(clauses))
+        ctx.fail(("C09/chain/depth=%d/" % depth if depth else "C09/") + sig, what, case, impl, model, list(clauses))
 
     # ---- run the implementation ----
     try:
@@ -286,7 +349,7 @@ def judge(ctx, case):
             # nothing selected (the Grid accessor says so, the UxDataArray accessor fails inside isel on the empty
             # index list): whether an empty selection is right is decided below by CrossSpec on an empty face list
             res = None
-        elif case.get("node_node") and isinstance(e, KeyError):
+        elif node_node and isinstance(e, KeyError):
             fail("source-has-node_node_connectivity/raises=KeyError", "slicing a grid that carries a (user-set) node_node_connectivity raises "
                  f"KeyError: {str(e)[:80]} (its rows list neighbours outside the subset; the node dictionary has no entry for them)")
             return
@@ -400,7 +463,7 @@ def judge(ctx, case):
         return
 
     # ---- the user's own requests on the subset, in the case's order (histories after slicing) ----
-    for attr in case.get("order", []):
+    for attr in step.get("order", []):
         try:
             getattr(sub, attr)
         except Exception as e:
@@ -462,10 +525,11 @@ def judge(ctx, case):
         if ht != "1":
             ctx.mismatch("C09/EFDTransport(hypothesis of efd_history_independent fails on the model's own tables)", case, None, ht)
     # ---- the Lean state machine for this history reproduces every table ----
-    if "file" not in case:
-        sup = case.get("supplied")
+    if "file" not in case or depth:
+        # a sub-grid as a source: both edge tables are there (like a source that ships them)
+        sup = case.get("supplied") if depth == 0 else dict(EN=[list(p) for p in EN], FE=FE)
         hist_codes = [SM_VARS.index(h) for h in hist_done if h in SM_VARS]
-        order = [SM_VARS.index(h) for h in case.get("order", []) if h in SM_VARS]
+        order = [SM_VARS.index(h) for h in step.get("order", []) if h in SM_VARS]
         vw = d.ask("C09.view", w, enc_rows(t), 1 if sup else 0, enc_pairs(sup["EN"] if sup else []), enc_rows(sup["FE"] if sup else []),
                    enc_ints(hist_codes), 0, enc_ints(idx), enc_ints(order))
         if vw == "raises":
@@ -487,7 +551,7 @@ def judge(ctx, case):
         if not np.array_equal(a, b):
             fail(f"coords/{attr}", f"{attr} of the subset is not the source's at the recorded node indices", a, b, ["slice_faces_exact"])
             return
-    geo = list(case.get("geo", []))
+    geo = list(step.get("geo", []))
     for attr in geo:
         rec = rec_n if attr.startswith("node") else rec_f if attr.startswith("face") else rec_e
         try:
@@ -556,12 +620,14 @@ def judge(ctx, case):
             ctx.hit("state-machine:edge_face_distances-identical")
 
     # ---- history independence, attribute by attribute: the same selection on a FRESH parent ----
-    twin = case.get("twin") or []
+    twin = step.get("twin") or []
     if twin:
-        g2 = build_source(case, ux)
-        if case.get("node_node"):
-            set_node_node(g2)
         try:
+            g2 = build_source(case, ux)
+            if case.get("node_node"):
+                set_node_node(g2)
+            for s0 in (prev["sels"] if prev else []):  # the same chain of selections, nothing materialised in between
+                g2 = apply_sel(g2, s0, False)
             sub2 = apply_sel(g2, sel, False)
         except Exception as e:
             fail(f"history/selection-raises-on-fresh-parent={type(e).__name__}", f"the selection raises on a fresh parent only: {e}")
@@ -606,6 +672,18 @@ def judge(ctx, case):
         if res.uxgrid is not sub:
             fail("data/grid", "sliced data is attached to another grid")
         ctx.hit("data-aligned")
+        comp = rec if prev is None else [prev["comp"][i] for i in rec]
+        root = data if prev is None else prev["root"]
+        if prev is not None:
+            root2 = root.reshape(-1, root.shape[-1])
+            ok = d.ask("C09.data", enc_ints(comp), enc_rows(root2.astype(np.int64).tolist()), enc_rows(sub2.astype(np.int64).tolist()))
+            if ok != "1":
+                fail(f"data/{centre}/composed", f"{centre}-centred data after {depth + 1} selections are not the root's at the composed "
+                     "recorded indices", sub2.tolist(), None, ["data_aligned"])
+                return None
+            ctx.hit("data-aligned(composed indices)")
+        return dict(sub=sub, res=res, sels=(prev["sels"] if prev else []) + [sel], comp=comp, root=root)
+    return dict(sub=sub, res=sub, sels=(prev["sels"] if prev else []) + [sel])
 
 
 # --------------------------------------------------------------------------------------
@@ -625,9 +703,9 @@ def supplied_tables(rng, g):
     return dict(EN=[list(p) for p in EN2], FE=FE2)
 
 
-def random_selection(rng, m, g, n_edge):
+def random_selection(rng, g, n_edge):
     kind = rng.choice(["face", "face", "face", "node", "edge", "box", "box", "circle", "knn", "lat", "lat"])
-    nf, nn = m.n_face, m.n_node
+    nf, nn = int(g.n_face), int(g.n_node)
     if kind in ("face", "node", "edge"):
         n = dict(face=nf, node=nn, edge=n_edge)[kind]
         style = rng.choice(["scalar", "single", "all", "all-perm", "unsorted", "unsorted", "sorted"])
@@ -699,7 +777,7 @@ def random_case(ctx, m, ux, supplied=None, thorough_geo=False):
         hist = [v for v in pool if rng.random() < 0.4]
         rng.shuffle(hist)
     case["history"] = hist
-    case["sel"] = random_selection(rng, m, g0, int(g0.n_edge))
+    case["sel"] = random_selection(rng, g0, int(g0.n_edge))
     order = [v for v in SM_VARS if rng.random() < 0.5]
     rng.shuffle(order)
     case["order"] = order
@@ -717,7 +795,37 @@ def random_case(ctx, m, ux, supplied=None, thorough_geo=False):
                             dtype=rng.choice(["float", "int"]))
     else:
         case["via"] = "grid"
+    if rng.random() < 0.35:
+        add_chain(ctx, case, ux, rng.choice([1, 1, 2]))
     return case
+
+
+def add_chain(ctx, case, ux, depth):
+    """further selections on the sub-grid the previous one returns (generated on a chain of un-materialised grids), each
+    with its own materialisation history on the intermediate sub-grid"""
+    rng = ctx.rng
+    chain = []
+    try:
+        g = build_source(case, ux)
+        s = apply_sel(g, case["sel"], False)
+        for _ in range(depth):
+            if int(s.n_face) < 1:
+                break
+            sel = random_selection(rng, s, int(s.n_edge))
+            pool = SM_VARS + GEO_CHEAP + ["face_areas"]
+            style = rng.choice(["none", "all", "random", "random", "efd"])
+            hist = [] if style == "none" else list(pool) if style == "all" else ["edge_face_distances"] if style == "efd" \
+                else [v for v in pool if rng.random() < 0.4]
+            rng.shuffle(hist)
+            order = [v for v in SM_VARS if rng.random() < 0.4]
+            rng.shuffle(order)
+            chain.append(dict(history=hist, sel=sel, order=order, geo=rng.sample(GEO_CHEAP, 3),
+                              twin=[a for a in ALL_DERIVED if a != "bounds" and rng.random() < 0.5]))
+            s = apply_sel(s, sel, False)
+    except Exception:
+        pass  # an empty / failing selection ends the chain here; `judge` meets the same call and decides
+    if chain:
+        case["chain"] = chain
 
 
 def _rll(lats, lon0, dlon, nlon, wrap):
@@ -822,6 +930,10 @@ def mpas_cases(ctx):
                     sel=sel, via=rng.choice(["grid", "uxda"]), geo=["edge_lon", "edge_lat", "face_lon"], order=[])
         if case["via"] == "uxda":
             case["data"] = dict(centre=rng.choice(["face", "node", "edge"]), lead=[rng.randint(1, 2)] if rng.random() < 0.5 else [], dtype="float")
+        if rng.random() < 0.5:
+            import uxarray as ux
+
+            add_chain(ctx, case, ux, 1)
         yield case
 
 
@@ -864,8 +976,10 @@ def run(ctx):
                 "(40% antimeridian-spanning) / circle / k-nearest on nodes, face centres, edge centres, constant latitude (35% exactly a "
                 "node's latitude, plus lat-lon grids queried at their node rows and triangle strips touching the parallel by an edge / "
                 "a corner from above and below: JUDGED EXACTLY whenever sin(deg2rad(lat)) as numba computes it and the grid's own node z "
-                "are compared as the same doubles and no other node lies within 1e-9; 1/2/7/16 numba threads); through Grid or a UxDataArray (face / node / edge data, rank 1..3); distinct = "
-                "distinct (table, history, selection, carrier)")
+                "are compared as the same doubles and no other node lies within 1e-9; 1/2/7/16 numba threads); through Grid or a UxDataArray (face / node / edge data, rank 1..3); 35% followed "
+                "by 1-2 further selections on the returned sub-grid, each after its own random materialisation on that sub-grid (every "
+                "sub-grid judged against its own source, data through the composed recorded indices, every derived attribute against the "
+                "same chain on un-materialised grids); distinct = distinct (table, history, selection, carrier, chain prefix)")
     ctx.assumptions = [
         "xarray's isel / attrs copying and NumPy's unique / fancy indexing are tied to the model only by this differential run",
         "reference points (node / face-centre / edge-centre coordinates) and tree distances are taken from the implementation (C04 / C11); "
